@@ -332,7 +332,7 @@ func (o *structFieldsCBOR) FromCBOR(dm cbor.DecMode, data []byte) error {
 		return err
 	}
 
-	if mapLen != 0 {
+	if additionalInfo != 31 { // definite-length encoding
 		// the declared length comes from the input; each entry takes at
 		// least two bytes, so do not reserve more than the input can hold
 		hint := mapLen
@@ -348,7 +348,7 @@ func (o *structFieldsCBOR) FromCBOR(dm cbor.DecMode, data []byte) error {
 				return fmt.Errorf("map item %d: %w", i, err)
 			}
 		}
-	} else { // mapLen == 0 --> indefinite encoding
+	} else { // indefinite-length encoding
 		o.Fields = make(map[int]cbor.RawMessage)
 
 		i := 0
